@@ -300,14 +300,20 @@ pub fn drive_dir(seed: u64, tier: &str, stim: Option<&str>, zero: &str, out: &mu
     // near 2^32, offsets near 2^62: about 25 bytes an entry, 2.5 MB uncompressed); brotli at quality 11 needs a minute
     // for the wide one and is left to the thorough tier
     for wide in [false, true] {
-        let n = if wide { 100_000u64 } else { 70_000u64 };
+        let n = if wide { 120_000u64 } else { 70_000u64 };
         let e: Vec<Entry> = if wide {
+            // half of the entries have every field at its widest, the others a random magnitude per field: varints of
+            // every length follow one another in every order, so that any fixed block size is crossed at every alignment
             let mut id = 0u64;
             (0..n)
                 .map(|i| {
-                    let run = 0xF000_0000u32 + (rng.next() % 0x0FFF_0000) as u32;
-                    let e = Entry { tile_id: id, run_length: run, length: 0xFFF0_0000 + (i as u32 % 0xFFFF), offset: (1u64 << 62) - 1 - (rng.next() % (1 << 40)) };
-                    id += u64::from(run) + (1 << 32) + rng.next() % (1 << 33);
+                    let wide_one = rng.chance(1, 2);
+                    let mag = |rng: &mut Rng, bits: u64| if wide_one { 0 } else { rng.below(bits) };
+                    let run = ((0xF000_0000u64 + rng.next() % 0x0FFF_0000) >> mag(&mut rng, 32)).max(1) as u32;
+                    let length = ((0xFFF0_0000u64 + (i % 0xFFFF)) >> mag(&mut rng, 32)).max(1) as u32;
+                    let offset = ((1u64 << 62) - 1 - (rng.next() % (1 << 40))) >> mag(&mut rng, 62);
+                    let e = Entry { tile_id: id, run_length: run, length, offset };
+                    id += u64::from(run) + (((1u64 << 32) + rng.next() % (1 << 33)) >> mag(&mut rng, 33));
                     e
                 })
                 .collect()
